@@ -3,14 +3,17 @@
    slicers/root.py, broker.py, eventual.py), proofs in lib/OrderProofs.v.
 
    `run ops` is the state after an arbitrary sequence of
-     Issue stalls fate | StallRelease | Deliver | GiftReady k ok | Turn | Disconnect
+     Issue stalls fate | StallRelease | Deliver | GiftReady k ok | Turn | Disconnect | EarlyGift k ok | SenderLost | GiftReady0 k ok
    i.e. calls issued at any time (also while the sender is paused inside a streaming argument), stalls released at
    any time, bytes arriving at any time, each of the n third-party references of a call (fate FGift n) resolved or
-   failed at any time and in any order, eventual-queue turns at any time, the receiver losing the connection at any time.
+   failed at any time and in any order -- also while the call is still being received (EarlyGift) --, eventual-queue turns at
+   any time, the receiver or the sender losing the connection at any time, and references that the peer sent with giftID 0.
    Call k is the k-th call handed to Broker.send (C04_ids_are_issue_order). *)
 From Coq Require Import List Arith ZArith Sorted.
 Import ListNotations.
-Require Import Verif.gen.OrderGen Verif.lib.Order Verif.lib.OrderProofs.
+Require Import Verif.lib.PyLite Verif.lib.Token Verif.lib.Recv Verif.lib.ObjChunks.
+Require Import Verif.gen.EventualGen Verif.lib.Eventual.
+Require Import Verif.gen.OrderGen Verif.lib.Order Verif.lib.OrderProofs Verif.lib.OrderBytes Verif.lib.OrderBytesProofs Verif.lib.OrderEventual.
 
 (* ids are issue indices: the issue order of a history is 0, 1, ..., (number of Issue ops) - 1 *)
 Theorem C04_ids_are_issue_order : forall ops, issued (run ops) = seq 0 (count_issues ops).
@@ -78,14 +81,14 @@ Print Assumptions C04_receiver_never_stuck.
 
 (* from every reachable state of a live connection, releasing the stalls, delivering the bytes, resolving the gifts and
    running turns (no new calls, no failing gifts, no loss) empties the whole pipeline ... *)
-Theorem C04_can_always_settle : forall ops, lost (run ops) = false ->
+Theorem C04_can_always_settle : forall ops, lost (run ops) = false -> cut (run ops) = None ->
   exists more, Forall settle_op more /\ pipeline (run (ops ++ more)) = [].
 Proof. exact can_always_settle. Qed.
 Print Assumptions C04_can_always_settle.
 
 (* ... so every issued call can still be brought to a conclusion: it is entered (exactly once, by C04_at_most_once)
    or explicitly refused -- none is lost, whatever was stalled, blocked or rejected before *)
-Theorem C04_eventually_entered_or_refused : forall ops, lost (run ops) = false ->
+Theorem C04_eventually_entered_or_refused : forall ops, lost (run ops) = false -> cut (run ops) = None ->
   exists more, Forall settle_op more /\
     forall c, c < count_issues ops ->
       In c (entered (run (ops ++ more))) \/ In (Failed c) (history (run (ops ++ more))) \/
@@ -115,12 +118,49 @@ Theorem C04_runnable_iff_all_gifts_resolved : forall n rs, 1 <= n -> List.length
 Proof. intros n rs Hn Hl. exact (gifts_all_or_first_failure rs n (gnet_init n) (live_init n Hn) Hl). Qed.
 Print Assumptions C04_runnable_iff_all_gifts_resolved.
 
+(* the same when some references resolved or failed EARLY, i.e. before their call was completely received (`pre`), m are
+   unresolved when the call is complete and rs are the results of the first |rs| of those: failure iff one failed (early
+   or late), success iff all have resolved, nothing otherwise.  Still excluded: references nested in containers (list /
+   dict / tuple arguments), whose unslicers put one more util.AsyncAND -- the same translated and_cb -- between the
+   reference and the arguments' AsyncAND (direct oracle only) *)
+Theorem C04_runnable_iff_all_gifts_resolved_any_time_partial : forall pre m rs,
+  1 <= List.length pre + m -> List.length rs <= m ->
+  g_out (gifts_run rs (gnet_close pre m)) =
+    if all_ok (pre ++ rs) then (if List.length rs =? m then Some true else None) else Some false.
+Proof. exact gifts_any_time. Qed.
+Print Assumptions C04_runnable_iff_all_gifts_resolved_any_time_partial.
+
 (* connection loss (Broker.finish on the receiver): from then on no call is entered, whatever happens next -- calls
    issued, stalls released, bytes, gifts resolving (the delivery that was waiting for one is refused, not entered), turns *)
-Theorem C04_nothing_entered_after_loss : forall ops more,
-  lost (run ops) = true -> entered (run (ops ++ more)) = entered (run ops).
+(* FULL STATEMENT (false, see below): forall ops more, lost (run ops) = true -> entered (run (ops ++ more)) = entered (run ops).
+   Proved: the same for every continuation that does not contain the successful resolution of a reference the PEER sent with
+   giftID 0 (honest senders never do: Broker.makeGift counts from 1) -- and for EVERY continuation as soon as Broker._doCall
+   refuses to run on a finished Broker (docall_checks_disconnected, read from the source: false on the current tree) *)
+Theorem C04_nothing_entered_after_loss_partial : forall ops more,
+  lost (run ops) = true -> Forall acked_op more \/ docall_checks_disconnected = true ->
+  entered (run (ops ++ more)) = entered (run ops).
 Proof. exact nothing_entered_after_loss. Qed.
-Print Assumptions C04_nothing_entered_after_loss.
+Print Assumptions C04_nothing_entered_after_loss_partial.
+
+(* ... and with such a reference it fails: the call is entered after the receiver has lost the connection.  The witness is
+   replayed on the real Broker pair by the check (corpus r5b_giftid0_after_loss.json) *)
+Theorem C04_nothing_entered_after_loss_refuted : docall_checks_disconnected = false ->
+  exists ops more, lost (run ops) = true /\ entered (run ops) = [] /\ entered (run (ops ++ more)) = [0].
+Proof. exact nothing_entered_after_loss_refuted. Qed.
+Print Assumptions C04_nothing_entered_after_loss_refuted.
+
+(* the SENDER loses the connection (possibly paused in the middle of a call, with calls queued): it goes on serializing
+   into a dead transport; at most the calls that were completely on the wire at that moment can still arrive, whatever
+   happens next.  (Order and at-most-once hold as for every history: C04_order, C04_at_most_once.) *)
+Theorem C04_after_sender_loss_only_in_flight_arrive : forall ops more k, cut (run ops) = Some k ->
+  arrived (run (ops ++ more)) <= arrived (run ops) + k.
+Proof. exact after_sender_loss_only_in_flight_arrive. Qed.
+Print Assumptions C04_after_sender_loss_only_in_flight_arrive.
+
+Theorem C04_sender_loss_cuts_at_wire : forall ops, cut (run ops) = None ->
+  cut (run (ops ++ [SenderLost])) = Some (List.length (wire (run ops))).
+Proof. exact sender_loss_cuts_at_wire. Qed.
+Print Assumptions C04_sender_loss_cuts_at_wire.
 
 Theorem C04_loss_is_final : forall ops more, lost (run ops) = true -> lost (run (ops ++ more)) = true.
 Proof. exact loss_is_final. Qed.
@@ -130,6 +170,55 @@ Print Assumptions C04_loss_is_final.
 Theorem C04_dropped_only_after_loss : forall ops, lost (run ops) = false -> dropped (run ops) = [].
 Proof. exact dropped_only_after_loss. Qed.
 Print Assumptions C04_dropped_only_after_loss.
+
+(* "regardless of packetisation".  lib/OrderBytes.v puts C07's tokenizer (Recv.feed, instantiated as in lib/ObjChunks.v)
+   and the top-level framing (a call is complete at the CLOSE that brings the depth back to 0) under the ordering model:
+   `brun bops` is a history in which the receiver gets PACKETS (BChunk bytes) instead of Deliver ops.
+   Every such history is a history of the ordering model, so order and at-most-once hold for every packetisation ... *)
+Theorem C04_order_any_chunking : forall bops,
+  sublist (entered (b_model (brun bops))) (issued (b_model (brun bops))) /\ NoDup (entered (b_model (brun bops))).
+Proof. exact order_any_chunking. Qed.
+Print Assumptions C04_order_any_chunking.
+
+(* ... re-cutting a run of consecutive packets (same bytes) anywhere in a history changes nothing at all: tokenizer state,
+   framing, ordering model, entered calls (C07's feed_app lifted through the framing and the model) ... *)
+Theorem C04_rechunking_changes_nothing : forall pre cs cs' post, concat cs = concat cs' ->
+  brun (pre ++ map BChunk cs ++ post) = brun (pre ++ map BChunk cs' ++ post).
+Proof. exact rechunking_changes_nothing. Qed.
+Print Assumptions C04_rechunking_changes_nothing.
+
+(* ... and one model Deliver = one call is a sound abstraction: for every serialization `ser` whose images are framed
+   (read from depth 0 they end exactly one top-level object), the byte stream of any sequence of calls, cut into packets
+   in any way, makes the receiver complete exactly one top-level object per call; the count never decreases as packets
+   arrive and depends on the bytes only *)
+Theorem C04_one_deliver_per_call : forall (A : Type) (ser : A -> list token) (calls : list A) bs cs,
+  (forall c, framed (ser c)) ->
+  forallb wf_token (concat (map ser calls)) = true -> forallb no_err (concat (map ser calls)) = true ->
+  encode_stream (concat (map ser calls)) = Ok bs -> concat cs = bs ->
+  completed cs = List.length calls.
+Proof. exact @one_deliver_per_call. Qed.
+Print Assumptions C04_one_deliver_per_call.
+
+Theorem C04_delivers_monotone_and_chunk_independent : forall cs1 cs2 cs',
+  completed cs1 <= completed (cs1 ++ cs2) /\ (concat cs1 = concat cs' -> completed cs1 = completed cs').
+Proof. intros cs1 cs2 cs'. split; [apply completed_monotone | apply completed_chunk_independent]. Qed.
+Print Assumptions C04_delivers_monotone_and_chunk_independent.
+
+(* the eventual-queue schedule: the three facts about eventual.py that lib/Order.v uses are those of C17's translated
+   configuration, and the batch discipline of a model Turn is C17's theorem about the real queue (imported) *)
+Theorem C04_eventual_readings_agree :
+  evq_push = push_of (c_pos src_cfg) /\ evq_iter = iter_of (c_order src_cfg) /\
+  (evq_isolates_exceptions = true <-> c_catch src_cfg = CatchAll).
+Proof. exact two_readings_agree. Qed.
+Print Assumptions C04_eventual_readings_agree.
+
+Theorem C04_turn_batch_is_C17_batch : forall eops st t st' t' (s : state),
+  Eventual.run src_cfg q0 eops = (st, t) -> Eventual.turn src_cfg st = (st', t') ->
+  List.length (events st) = List.length (evq s) ->
+  List.length (rans t') = List.length (evq s) /\ rans t' = map sid (events st) /\
+  map sid (events st') = subs t' /\ subs t = rans t ++ map sid (events st).
+Proof. exact turn_batch_is_C17_batch. Qed.
+Print Assumptions C04_turn_batch_is_C17_batch.
 
 (* foolscap.eventual's queue is an order-preserving channel, whatever else shares it -- unrelated callables, callables
    that raise, callables that write when they run.  This is all that orders calls on a LocalReferenceable, and it is
